@@ -249,4 +249,13 @@ theorem gen_cross_val_score_eq_model {σ : Type} (E : Est σ) (rows : Rows) (spl
   obtain ⟨tr, te⟩ := sp
   simp only [gen_select_rows, gen_fit_score_eq_model]
 
+/-! ### The regenerated source satisfies the property -/
+/-- The translated `cross_val_score` loop: one score per split, each the metric of a model fitted on the training rows only and evaluated on
+    the test rows only (rows outside the split cannot influence it). -/
+theorem src_cross_val_score {σ : Type} (E : Est σ) (scoring : Option Scoring) (rows : Rows) (splits : List (List Nat × List Nat)) :
+    (Gen.crossValScore E rows splits scoring).length = splits.length ∧
+    Gen.crossValScore E rows splits scoring = splits.map fun sp => fitScore E (scoring.getD .r2) (rows.select sp.1) (rows.select sp.2) := by
+  rw [gen_cross_val_score_eq_model]
+  exact ⟨by simp [crossValScore], rfl⟩
+
 end Verde.C12
